@@ -71,35 +71,8 @@ class ObsDomain(EvDomain):
                 v = self.atom('same_subject'); return v if op == '==' else (not v)
         return None
 
-    # std::any_of / all_of / none_of over [X.begin(), X.end()): the predicate is evaluated on a representative element
-    def sync_closures(self, ex, n, st, fr):
-        q = strip_targs(n.calleeq or '')
-        if q in ('std::any_of', 'std::all_of', 'std::none_of'):
-            args = [a for a in n.ns('args') if a is not None]
-            v0 = fr.vals.get(args[0].id) if args else None
-            clo = next((fr.vals.get(a.id) for a in args if isinstance(fr.vals.get(a.id), Closure)), None)
-            if isinstance(v0, Sym) and v0.name.endswith('.begin') and clo is not None and clo.fn is not None:
-                X = v0.name[:-6]
-                self._algo = getattr(self, '_algo', {})
-                self._algo[n.id] = [X, None]
-                return [(clo, [Sym(X + '.front')])]
-        return super().sync_closures(ex, n, st, fr)
-
-    def after_closure(self, ex, n, clo, ret, st):
-        if n.id in getattr(self, '_algo', {}):
-            self._algo[n.id][1] = ret; return None
-        return super().after_closure(ex, n, clo, ret, st)
-
-    def ext_call(self, ex, n, st, fr):
-        if n.k == 'call' and n.id in getattr(self, '_algo', {}):
-            X, ret = self._algo[n.id]
-            q = strip_targs(n.calleeq or '')
-            empty = self.atom('observers_empty') if X == OBS else None
-            self.ev(st, Ev('call', n, name=q, obj=None), fr)
-            if empty is True: return q != 'std::any_of'
-            if empty is False and isinstance(ret, bool): return ret if q == 'std::any_of' else (ret if q == 'std::all_of' else (not ret))
-            return Unknown((q, n.id))
-        return super().ext_call(ex, n, st, fr)
+    def container_empty(self, X):
+        return self.atom('observers_empty') if X == OBS else None
 
     def vcall_result(self, ex, n, q, base, on, ov, vals, st, fr):
         if base == 'isValid':
